@@ -77,8 +77,64 @@ def corpus(ctx):
     for t in RANGES:
         for s in [b"imax", b"imin", b"umax", b"-1", b"-12", b"-", b"+", b"0x", b"0x10", b"-0x10", b"08", b"00", b"0", b"18446744073709551616", b"-9223372036854775809", b"9223372036854775808"]:
             cs.append({"t": t, "op": "p", "arg": hexs(s)}); cs.append({"t": t, "op": "P", "arg": hexs(s)})
-    for e in ("Head_t", "Body_t", "Value_t", "Heuristic_t", "Directive_t"): cs.append({"t": "enum", "op": e, "arg": None})
+    for e in ENUMS: cs.append({"t": "enum", "op": e, "arg": None})
+    # the library's own prefix-sharing constants as a generic enumeration class
+    rep = "Learnt = 0, Static = 1, Volatile = 2, VolatileStatic = 3"
+    for tx in (b"Volatile", b"VolatileStatic", b"VolatileS", b"Static", b"Statics", b"Volatile,3"): cs.append(enumc_case(rep, 0, 3, "s", tx))
     return cs
+
+ENUMS = ("Head_t", "Body_t", "Value_t", "Heuristic_t", "Directive_t", "Theory_t", "Tuple_t", "Clause_t", "Statistics_t")
+ENAMES = ["A", "Ab", "Abc", "B", "Bar", "Barx", "Volatile", "VolatileStatic", "Atom", "AtomWithGuard", "X_1", "x", "True", "Truely", "Level"]
+
+def enumc_case(rep, lo, hi, op, arg):
+    return {"t": "enumc", "op": op, "arg": hexs(arg) if op == "s" else str(arg), "rep": rep, "min": lo, "max": hi}
+
+def enum_entries(rep, lo):
+    """(name, value) in declaration order; a constant without '= v' is its predecessor + 1 (the first one: the minimum)"""
+    out = []; cur = lo
+    for i, part in enumerate(rep.split(",")):
+        part = part.strip()
+        if "=" in part: nm, v = part.split("="); nm = nm.strip(); cur = int(v)
+        else: nm = part; cur = lo if i == 0 else cur + 1
+        out.append((nm, cur))
+    return out
+
+def enumc_expected(c):
+    ents = enum_entries(c["rep"], c["min"])
+    if c["op"] == "i":
+        v = int(c["arg"])
+        for nm, x in ents:
+            if x == v: return hexs(nm.encode())
+        return "none"
+    t = bytes.fromhex(c["arg"]).decode() if c["arg"] != "-" else ""
+    if t and (t[0].isdigit() or t[0] == "-"):
+        v = int(t)
+        ok = c["min"] <= v <= c["max"] and any(x == v for _, x in ents)
+        return "n:%d:%d" % (len(t), v) if ok else "n:0:-"
+    key = t
+    for ch in " ,=":
+        k = key.find(ch)
+        if k >= 0: key = key[:k]
+    for nm, x in ents:
+        if nm == key: return "n:%d:%d" % (len(key), x)
+    return "n:0:-"
+
+def gen_enumc(rng):
+    names = rng.sample(ENAMES, rng.randint(2, 6))
+    lo = rng.choice([0, 0, 0, -3, 1])
+    parts = []; cur = lo; vals = []
+    for i, nm in enumerate(names):
+        if i == 0 or rng.random() < 0.5:
+            cur = lo if i == 0 else cur + rng.randint(1, 3)
+            parts.append("%s = %d" % (nm, cur))
+        else:
+            cur += 1; parts.append(nm)
+        vals.append(cur)
+    rep = ", ".join(parts); hi = vals[-1]
+    if rng.random() < 0.3: return enumc_case(rep, lo, hi, "i", rng.choice(vals + [hi + 1, lo - 1, rng.randint(lo, hi)]))
+    nm = rng.choice(names + ENAMES[:4])
+    tx = rng.choice([nm, nm, nm + "x", nm + "1", nm + "_", nm[:-1], nm + ",rest", nm + " ", nm + "=1", nm.lower(), nm + "Static", str(rng.choice(vals)), str(hi + 1), str(rng.randint(lo - 1, hi + 1))])
+    return enumc_case(rep, lo, hi, "s", tx.encode())
 
 def generate(ctx):
     n = {"quick": 12000, "thorough": 300000}[ctx.tier]
@@ -96,7 +152,8 @@ def generate(ctx):
         elif k < 0.9: out.append({"t": "char", "op": "p", "arg": hexs(rng.choice([b"a", b"\\t", b"\\n", b"\\v", b"\\", b"\\x", b"", b"ab", bytes([rng.randint(1, 255)])]))})
         elif k < 0.93: out.append({"t": "char", "op": "w", "arg": str(rng.randint(1, 255))})
         elif k < 0.95: out.append({"t": "bool", "op": "w", "arg": str(rng.randint(0, 1))})
-        elif k < 0.975:
+        elif k < 0.965: out.append(gen_enumc(rng))
+        elif k < 0.98:
             a, b = rng.choice([-2**31, 2**31 - 1, 0, rng.randint(-2**31, 2**31 - 1)]), rng.choice([0, 2**32 - 1, rng.randint(0, 2**32 - 1)])
             out.append({"t": "pair", "op": "w", "arg": "%d,%d" % (a, b)})
         else:
@@ -111,7 +168,9 @@ def generate(ctx):
     return out
 
 def evaluate(ctx, cases):
-    def line(c): return "sc %s %s%s" % (c["t"], c["op"], "" if c["arg"] is None else " " + c["arg"])
+    def line(c):
+        if c["t"] == "enumc": return "sc enumc %s %d %d %s %s" % (hexs(c["rep"].encode()), c["min"], c["max"], c["op"], c["arg"] or "-")
+        return "sc %s %s%s" % (c["t"], c["op"], "" if c["arg"] is None else " " + c["arg"])
     lines = [line(c) for c in cases]
     impl = ctx.impl(lines)
     modelable = [k for k, c in enumerate(cases) if c["t"] in RANGES or c["t"] in ("bool", "char")]
@@ -123,6 +182,11 @@ def evaluate(ctx, cases):
         ctx.sample({"case": lines[k][:120], "impl": (i if isinstance(i, str) else "CRASH")[:100]}, 6)
         if not isinstance(i, str):
             ctx.fail("C16:crash", "crash / sanitizer abort in a conversion", c, {"stderr": i[2][-1500:]}); continue
+        if c["t"] == "enumc":
+            exp = enumc_expected(c)
+            if i != exp: ctx.fail("C16:enum-class", "an enumeration name/value is not converted to exactly the constant with that name/value (first declared wins; a longer or shorter word is another word)", c, {"impl": i, "expected": exp})
+            else: ctx.nontrivial(("enumc", c["rep"], c["arg"]))
+            continue
         if c["t"] == "enum":
             if "!" in i or "ACCEPTS" in i: ctx.fail("C16:enum-roundtrip", "an enumeration constant does not round-trip or an out-of-range code is accepted", c, {"impl": i})
             continue
